@@ -79,7 +79,8 @@ type eventB struct {
 	Name    string
 	Nodes   []*ref.Node
 	Indexed []bool
-	k       int // number of indexed inputs
+	Sel     []bool // which inputs are bound to a column (at least one)
+	k       int    // number of indexed inputs of the DECLARATION (selected or not)
 	conf    config.Integration
 	topic0  []byte // reference topic0
 	data    []byte // well-formed data for the non-indexed inputs (empty when all are indexed)
@@ -88,14 +89,17 @@ type eventB struct {
 
 var pgType = map[string]string{"uint256": "numeric", "address": "bytea", "bytes": "bytea", "string": "text", "bool": "bool"}
 
-// digInputB: every leaf is selected into its own column.
-func digInputB(n *ref.Node, name, col string, indexed bool, cols *[]wpg.Column) dig.Input {
+// digInputB: when selected, every leaf of the input is bound to its own column.
+func digInputB(n *ref.Node, name, col string, indexed, selected bool, cols *[]wpg.Column) dig.Input {
 	in := dig.Input{Name: name, Type: n.JSONType(), Indexed: indexed}
 	if n.IsTuple() {
 		for i, f := range n.Fields {
 			s := string(rune('a' + i))
-			in.Components = append(in.Components, digInputB(f, name+"_"+s, col+"_"+s, false, cols))
+			in.Components = append(in.Components, digInputB(f, name+"_"+s, col+"_"+s, false, selected, cols))
 		}
+		return in
+	}
+	if !selected {
 		return in
 	}
 	in.Column = col
@@ -113,26 +117,40 @@ const (
 	tblName = "c13_tbl"
 )
 
-func newEventB(name string, nodes []*ref.Node, indexed []bool) (*eventB, error) {
-	if len(nodes) != len(indexed) || len(nodes) == 0 {
-		return nil, fmt.Errorf("bad event: %d inputs, %d flags", len(nodes), len(indexed))
+// newEventB: sel == nil means every input is selected.
+func newEventB(name string, nodes []*ref.Node, indexed, sel []bool) (*eventB, error) {
+	if sel == nil {
+		sel = make([]bool, len(nodes))
+		for i := range sel {
+			sel[i] = true
+		}
 	}
-	ev := &eventB{Name: name, Nodes: nodes, Indexed: indexed}
+	if len(nodes) != len(indexed) || len(nodes) != len(sel) || len(nodes) == 0 {
+		return nil, fmt.Errorf("bad event: %d inputs, %d indexed flags, %d selection flags", len(nodes), len(indexed), len(sel))
+	}
+	ev := &eventB{Name: name, Nodes: nodes, Indexed: indexed, Sel: sel}
 	var (
 		cols   []wpg.Column
 		inputs []dig.Input
 		nonIdx []*ref.Node
+		anySel bool
+		selNon bool // a non-indexed input is selected
 	)
 	for i, n := range nodes {
-		if indexed[i] && n.IsTuple() {
+		if indexed[i] && sel[i] && n.IsTuple() {
 			return nil, fmt.Errorf("indexed tuple with selected components is outside the domain")
 		}
-		inputs = append(inputs, digInputB(n, fmt.Sprintf("in%d", i), fmt.Sprintf("c%d", i), indexed[i], &cols))
+		inputs = append(inputs, digInputB(n, fmt.Sprintf("in%d", i), fmt.Sprintf("c%d", i), indexed[i], sel[i], &cols))
+		anySel = anySel || sel[i]
 		if indexed[i] {
 			ev.k++
 		} else {
 			nonIdx = append(nonIdx, n)
+			selNon = selNon || sel[i]
 		}
+	}
+	if !anySel {
+		return nil, fmt.Errorf("no input selected: outside the domain (log indexing needs a selected input)")
 	}
 	root := &config.Root{Integrations: []config.Integration{{
 		Name:    igName,
@@ -146,7 +164,7 @@ func newEventB(name string, nodes []*ref.Node, indexed []bool) (*eventB, error) 
 	ev.conf = root.Integrations[0]
 	// the block data AddRequiredFields is documented to add
 	wantBD := []string{"ig_name", "src_name", "block_num", "tx_idx", "log_idx"}
-	if len(nonIdx) > 0 {
+	if selNon {
 		wantBD = append(wantBD, "abi_idx")
 	}
 	var gotBD []string
@@ -175,6 +193,9 @@ func (ev *eventB) decl() string {
 		s := ref.CanonType(n)
 		if ev.Indexed[i] {
 			s += " indexed"
+		}
+		if ev.Sel[i] {
+			s += " ->column"
 		}
 		parts = append(parts, s)
 	}
@@ -467,7 +488,7 @@ func evalB(c *fw.Ctx, ev *eventB, logs []*logB) {
 		return
 	}
 	c.Outcome("B:" + class)
-	k := kase{Part: "B", Name: ev.Name, Indexed: ev.Indexed, Sig: ev.sig}
+	k := kase{Part: "B", Name: ev.Name, Indexed: ev.Indexed, Selected: ev.Sel, Sig: ev.sig}
 	for _, n := range ev.Nodes {
 		k.Inputs = append(k.Inputs, n.Clone())
 	}
@@ -477,6 +498,15 @@ func evalB(c *fw.Ctx, ev *eventB, logs []*logB) {
 		descs = append(descs, fmt.Sprintf("{%s: %d topics, topic0=%x, %d data bytes}", l.Desc, len(l.Topics), first(l.Topics), len(l.Data)))
 	}
 	c.Violation(prop, class, key, fmt.Sprintf("%s\nevent %s  topic0=%x indexed=%d\nlogs of the tx in order: %s", detail, ev.decl(), ev.topic0, ev.k, strings.Join(descs, " ")), k)
+}
+
+func allTrue(b []bool) bool {
+	for _, x := range b {
+		if !x {
+			return false
+		}
+	}
+	return true
 }
 
 func first(t [][]byte) []byte {
@@ -502,6 +532,8 @@ func altsB(thorough bool) []altB {
 		out = append(out, altB{ref.Leaf(l), false}, altB{ref.Leaf(l), true})
 	}
 	out = append(out, altB{ref.Tuple([]*ref.Node{ref.Leaf("uint256"), ref.Leaf("bytes")}), false})
+	// an indexed tuple (its topic is a hash): only enumerated without a column
+	out = append(out, altB{ref.Tuple([]*ref.Node{ref.Leaf("uint256"), ref.Leaf("bytes")}), true})
 	return out
 }
 
@@ -516,16 +548,30 @@ func runB(c *fw.Ctx) {
 	for n := 1; n <= 3; n++ {
 		idx := make([]int, n)
 		for {
-			if c.Mine() {
+			// every selection pattern with at least one selected input
+			for mask := 1; mask < 1<<n; mask++ {
+				ok := true
+				for i, a := range idx {
+					if mask&(1<<i) != 0 && alts[a].indexed && alts[a].node.IsTuple() {
+						ok = false // an indexed tuple cannot have selected components
+					}
+				}
+				if !ok {
+					continue
+				}
+				if !c.Mine() {
+					continue
+				}
 				if c.Expired() {
 					return
 				}
 				nodes := make([]*ref.Node, n)
 				indexed := make([]bool, n)
+				sel := make([]bool, n)
 				for i, a := range idx {
-					nodes[i], indexed[i] = alts[a].node, alts[a].indexed
+					nodes[i], indexed[i], sel[i] = alts[a].node, alts[a].indexed, mask&(1<<i) != 0
 				}
-				runEventB(c, nodes, indexed)
+				runEventB(c, nodes, indexed, sel)
 			}
 			// next combination
 			i := n - 1
@@ -543,14 +589,41 @@ func runB(c *fw.Ctx) {
 	}
 }
 
-func runEventB(c *fw.Ctx, nodes []*ref.Node, indexed []bool) {
-	ev, err := newEventB(nameB, nodes, indexed)
+func runEventB(c *fw.Ctx, nodes []*ref.Node, indexed, sel []bool) {
+	ev, err := newEventB(nameB, nodes, indexed, sel)
 	if err != nil {
 		c.HarnessError("part B event: %v", err)
 		return
 	}
-	c.Count("B_events", 1)
-	c.Count(fmt.Sprintf("B_events/indexed=%d", ev.k), 1)
+	c.Count("B_integrations", 1)
+	c.Count(fmt.Sprintf("B_integrations/indexed=%d", ev.k), 1)
+	selIdx, unselIdx, unselIdxAfterLastSel, lastSel := 0, 0, 0, -1
+	for i := range sel {
+		if sel[i] {
+			lastSel = i
+		}
+	}
+	for i := range sel {
+		switch {
+		case indexed[i] && sel[i]:
+			selIdx++
+		case indexed[i]:
+			unselIdx++
+			if i > lastSel {
+				unselIdxAfterLastSel++
+			}
+		}
+	}
+	switch {
+	case unselIdxAfterLastSel > 0:
+		c.Count("B_integrations/unselected-indexed-input-after-last-selected", 1)
+	case unselIdx > 0:
+		c.Count("B_integrations/unselected-indexed-input", 1)
+	case lastSel >= 0 && selIdx+unselIdx == ev.k && allTrue(sel):
+		c.Count("B_integrations/all-selected", 1)
+	default:
+		c.Count("B_integrations/unselected-non-indexed-only", 1)
+	}
 	alpha := ev.alphabet()
 	nMatch := 0
 	for _, l := range alpha {
@@ -579,10 +652,20 @@ func runEventB(c *fw.Ctx, nodes []*ref.Node, indexed []bool) {
 	for _, a := range alpha {
 		one([]*logB{a})
 	}
+	// quick tier, partial selections: only the ordered pairs in which at least one log carries the
+	// declared hash (any topic count) or no topics at all; all-selected integrations and the thorough
+	// tier run every ordered pair.
+	full := c.Thorough() || allTrue(sel)
+	family := func(l *logB) bool { return len(l.Topics) == 0 || bytes.Equal(l.Topics[0], ev.topic0) }
+	sets := len(alpha)
 	for _, a := range alpha {
 		for _, b := range alpha {
+			if !full && !family(a) && !family(b) {
+				continue
+			}
 			one([]*logB{a, b})
+			sets++
 		}
 	}
-	c.Sample(map[string]any{"part": "B", "event": ev.decl(), "topic0": hex.EncodeToString(ev.topic0), "alphabet": len(alpha), "log_sets": len(alpha) + len(alpha)*len(alpha)})
+	c.Sample(map[string]any{"part": "B", "event": ev.decl(), "topic0": hex.EncodeToString(ev.topic0), "alphabet": len(alpha), "log_sets": sets})
 }
